@@ -874,6 +874,20 @@ class Engine:
         self.uflog.append((name, ea, r))
         return SR(r)
 
+    _ufbs = {}
+
+    def ufb(self, name, *args):
+        """uninterpreted boolean function of real arguments (e.g. 'the callback fails at this point')"""
+        key = (name, len(args))
+        f = Engine._ufbs.get(key)
+        if f is None:
+            f = z3.Function(name, *([z3.RealSort()] * len(args) + [z3.BoolSort()]))
+            Engine._ufbs[key] = f
+        ea = [zexpr(a) for a in args]
+        r = f(*ea)
+        self.uflog.append((name, ea, r))
+        return SB(r)
+
     # -- division policy
     def divide(self, a, b):
         """a / b with symbolic b.  'z3': real division (NRA); 'uf': uninterpreted DIV with
@@ -1291,6 +1305,9 @@ class ConcreteEngine:
         if bd > 1e-6 * (1 + builtins.max([builtins.abs(x) for x in a], default=0.0)):
             self.notes.append(f"uf {name} evaluated {bd:.3g} away from the nearest recorded point")
         return float(best)
+
+    def ufb(self, name, *args):
+        return builtins.bool(self.uf(name, *args))
 
     def divide(self, a, b):
         return a / b
